@@ -46,7 +46,9 @@ def check_twins(fx, rep, rule):
         if len(a) != 1 or len(b) != 1:
             A.one(rep, rule, "twin java::" + x, [])
             continue
-        eq, why, ntok = T.compare(fx, a[0], b[0], T.MAPPER_CACHE)
+        x_last, y_last = a[0].split("::")[-1], b[0].split("::")[-1]
+        subst = T.MAPPER_CACHE + [(r"\b%s\b" % y_last, x_last)] if y_last != x_last + "_cache" else T.MAPPER_CACHE
+        eq, why, ntok = T.compare(fx, a[0], b[0], subst)
         n += 1
         rep.fn(a[0], b[0])
         rep.check(rule, "%s/twin/java::%s" % (rule, x), eq, loc="src/java.rs", found=why or "alpha-equivalent modulo receiver (%d tokens)" % ntok,
